@@ -196,6 +196,18 @@ Definition final_box (key : model_key) (nmin : nat) (T obs : list N) (incoming :
   | _, _ => None
   end.
 
+(* fit_final_model.get_bnds: the rows handed to the final fit are built around the result x0 of the initial fit,
+   x0_i -+ 10^(OoM(x0_i, "exact") + log10 scalar) = x0_i -+ |x0_i| scalar  (common/utils.py OoM_numba: the order of
+   magnitude of 0 is defined as 1, so a zero entry gets -+ 10 scalar); scalar = settings.final_bounds_scalar *)
+Definition get_bnds_row (scalar x : N) : row :=
+  if x =? zero then (- (n_ten * scalar), n_ten * scalar)
+  else (x - n_abs x * scalar, x + n_abs x * scalar).
+
+(* the box of the final fit as a function of the initial fit's (reduced) result x0 *)
+Definition final_box_from_initial (key : model_key) (nmin : nat) (T obs : list N) (scalar : N) (x0 : list N)
+  : option (list row) :=
+  final_box key nmin T obs (map (get_bnds_row scalar) x0).
+
 (* The box of the INITIAL fit of a component (fit_initial_models_from_full_model -> fit_hdd_tidd_cdd(smooth=True,
    initial_fit=True, bnds=None)): balance points over the whole temperature range, slopes in [0, max_slope]
    (max_slope comes from the balance-point search and is an input here), smoothing in [0,1]. *)
